@@ -43,7 +43,21 @@ var (
 	fakeFailMarker = "FAIL_OPEN"
 )
 
+// fakeGate parks the opening of a shard table below the given directory prefix (a slow cold reopen) until release is closed.
+type fakeGate struct {
+	prefix  string
+	entered chan struct{}
+	release chan struct{}
+	once    sync.Once
+}
+
+var fakeGateP atomic.Pointer[fakeGate]
+
 func fakeCreator(_ fs.FileSystem, root string, _ common.Position, _ *logger.Logger, _ timestamp.TimeRange, _ int, _ any) (*fakeTable, error) {
+	if g := fakeGateP.Load(); g != nil && strings.HasPrefix(root, g.prefix) {
+		g.once.Do(func() { close(g.entered) })
+		<-g.release
+	}
 	if _, err := os.Stat(filepath.Join(root, fakeFailMarker)); err == nil {
 		return nil, fmt.Errorf("injected shard open failure at %s", root)
 	}
